@@ -6,7 +6,7 @@
 //      [8] generation, [9] xid, [10] Reset/other frames: Ethernet destination broadcast? (independent of the real destination),
 //      [12] the frame's real source is this station's own address (an echo of something it sent itself) - classification must not depend on it
 //      [11] extra station slots the frame carries BEYOND the declared count (the own address is put into the first of them: it must not count)
-enum { T_NULL, T_EMPTY, T_SAME_SAME_XID, T_SAME_OTHER_XID, T_SAME_MAPPER_OTHER_GEN, T_OTHER_MAPPER_SAME_GEN, T_FULL_OTHERS, T_HOLE_THEN_OTHER_XID, T_HOLE_THEN_SAME_XID, T_SAME_SAME_XID_COMPLETE, T_SAME_OTHER_XID_COMPLETE, T_OTHER_GEN_FIRST_THEN_OTHER_XID, T_OTHER_GEN_FIRST_THEN_SAME_XID, T_NCLASSES };
+enum { T_NULL, T_EMPTY, T_SAME_SAME_XID, T_SAME_OTHER_XID, T_SAME_MAPPER_OTHER_GEN, T_OTHER_MAPPER_SAME_GEN, T_FULL_OTHERS, T_HOLE_THEN_OTHER_XID, T_HOLE_THEN_SAME_XID, T_SAME_SAME_XID_COMPLETE, T_SAME_OTHER_XID_COMPLETE, T_OTHER_GEN_FIRST_THEN_OTHER_XID, T_OTHER_GEN_FIRST_THEN_SAME_XID, T_READDED_WITH_LOWER_XID, T_CLEARED_AFTER_A_GAP, T_NCLASSES };
 
 static const Mac OWN = {{0x02, 0x11, 0x22, 0x33, 0x44, 0x55}};
 static const Mac MAPPER = {{0x02, 0xAA, 0x00, 0x00, 0x00, 0x01}};
@@ -86,6 +86,12 @@ static Verdict run(const Case &c) {
             changed = tclass == T_SAME_OTHER_XID_COMPLETE;
             break;
         }
+        case T_READDED_WITH_LOWER_XID:   // the session was refreshed twice, the second time under the frame's transaction id, which is the "older" one in serial arithmetic: it is known under THAT id now
+            br_st_add(t, MAPPER.b, gen, (uint16_t)(xid + 5)); br_st_add(t, MAPPER.b, gen, xid);
+            break;
+        case T_CLEARED_AFTER_A_GAP:      // sessions came and went (one removed, leaving a gap below the mapper's), then the table was cleared: nothing is known any more
+            br_st_add(t, other.b, gen, 1); br_st_add(t, MAPPER.b, gen, (uint16_t)(xid ^ 0x0100)); br_st_remove(t, other.b, gen); br_st_clear(t);
+            break;
         case T_OTHER_GEN_FIRST_THEN_OTHER_XID: case T_OTHER_GEN_FIRST_THEN_SAME_XID:   // the mapper is known under two generations; the frame's one sits in the later slot
             br_st_add(t, MAPPER.b, (uint16_t)(gen + 1), xid);
             br_st_add(t, MAPPER.b, (uint16_t)(gen ^ 0x8000), (uint16_t)(xid + 7));
@@ -168,7 +174,7 @@ int main(int argc, char **argv) {
     Current::install(a.failing);
     Evidence ev;
     ev.rule = "derive_session_event (built without LLTD_TESTING) on harness-built frames in a malloc(1500) buffer. Enumerated: every (n, position) layout (quick: n <= 40; thorough: n <= 240, 29161 layouts) "
-              "x 13 session-table classes (the mapper known under other generations in earlier slots, null, empty, same/other transaction, other generation, other mapper, full, the matching session behind a freed slot, the matching session already complete); all 256 opcodes x real destination broadcast/unicast. Random: n 0..240, position, near-miss decoys, all-zero/broadcast/multicast/mapper addresses as list entries, own address straddling two slots, "
+              "x 15 session-table classes (re-added under an 'older' transaction id, cleared after a gap, the mapper known under other generations in earlier slots, null, empty, same/other transaction, other generation, other mapper, full, the matching session behind a freed slot, the matching session already complete); all 256 opcodes x real destination broadcast/unicast. Random: n 0..240, position, near-miss decoys, all-zero/broadcast/multicast/mapper addresses as list entries, own address straddling two slots, "
               "count larger than the frame holds, generation/xid, ToS. non-trivial = Discover with n >= 2 and own address at index >= 1, or a decoy present; distinct = digest of the case";
     bool ok = true;
     int nmax = a.quick() ? 40 : 240;
